@@ -19,11 +19,17 @@ from emit import Emitter, Crate, Unsupported, indent, lname
 SPEC = {
     # Rust type name -> Lean type (hand model types reused by the generated code)
     "types": {"Tag": "Tag", "Version": "Version", "Error": "Unit", "KmsProtection": "Gen.KmsProtection",
-              "Data": "Bytes", "Hash": "Bytes"},
+              "Data": "Bytes", "Hash": "Bytes", "Nonce": "Bytes", "MsgVerifier": "Verifier",
+              "MsgSigner": "Signer", "SystemTime": "Rs.Time", "Duration": "Rs.Time", "SocketAddr": "Nat"},
     # translated structs (fields of other types must be listed under skip_fields)
     "structs": {
         "RtMessage": {},
         "MerkleTree": {"skip_fields": ["algorithm"]},
+        "ResponseHandler": {},
+        "ParsedResponse": {},
+        "OnlineKey": {},
+        "LongTermKey": {},
+        "Responder": {"skip_fields": ["grease", "thread_id", "long_term_public_key"]},
     },
     "variants": {
         "Tag::*": "Tag.{v}",
@@ -42,6 +48,17 @@ SPEC = {
         # hashing is a parameter of the Merkle model: (tweak-prefixed) SHA-512 truncated to the node width
         # ring::digest: SHA-512 is the module parameter `H`; `Context` is the byte string fed so far
         "Algorithm::output_len": {"lean": "64"},
+        # src/sign.rs MsgVerifier (ed25519-dalek) is the hand model's `Verifier` over the abstract scheme `S`
+        "MsgVerifier::new": {"lean": "(Verifier.new S {0})", "monadic": True, "ret_rust": "MsgVerifier"},
+        "MsgVerifier::update": {"lean": "(Verifier.update {self} {0})", "mutates": True},
+        "MsgVerifier::verify": {"lean": "(Verifier.verify S {self} {0})", "monadic": True},
+        # src/sign.rs MsgSigner is the hand model's `Signer` (seed + buffer) over the abstract scheme `S`
+        "MsgSigner::from_seed": {"lean": "(Signer.fromSeed {0})", "monadic": True, "ret_rust": "MsgSigner"},
+        "MsgSigner::update": {"lean": "(Signer.update {self} {0})", "mutates": True},
+        "MsgSigner::sign": {"lean": "(Signer.sign S {self}).2", "res": "(Signer.sign S {self}).1", "mutates": True},
+        "MsgSigner::public_key_bytes": {"lean": "(Signer.publicKey S {self})"},
+        "SystemTime::duration_since": {"lean": "(Rs.durationSinceEpoch {self})", "result": True, "ret_rust": "Duration"},
+        "Version::supported_versions_wire": {"lean": "Version.supportedWire"},
     },
     "modules": {
         "Message": {
@@ -58,6 +75,8 @@ SPEC = {
                 "RtMessage::encode": {},
                 "RtMessage::encoded_size": {},
                 "RtMessage::calculate_padding_length": {},
+                "RtMessage::into_hash_map": {},
+                "RtMessage::clear": {},
             },
         },
         "Merkle": {
@@ -81,6 +100,59 @@ SPEC = {
                 "MerkleTree::finalize_output": {},
             },
         },
+        "Online": {
+            "file": "src/key/online.rs",
+            "imports": ["Message"],
+            "params": [("S", "SigScheme")],
+            "functions": {
+                "OnlineKey::make_dele": {},
+                "OnlineKey::classic_midp": {"checked_u64": True},
+                "OnlineKey::rfc_midp": {},
+                "OnlineKey::make_srep": {},
+            },
+        },
+        "LongTerm": {
+            "file": "src/key/longterm.rs",
+            "imports": ["Message", "Online"],
+            "params": [("S", "SigScheme"), ("H", "Bytes → Bytes")],
+            "functions": {
+                "LongTermKey::calc_srv_value": {"params": [("H", "Bytes → Bytes")]},
+                "LongTermKey::new": {},
+                "LongTermKey::make_cert": {},
+                "LongTermKey::public_key": {},
+                "LongTermKey::srv_value": {},
+            },
+        },
+        "Responder": {
+            "file": "src/responder.rs",
+            "imports": ["Message", "Merkle", "Online"],
+            "params": [("S", "SigScheme"), ("H", "Bytes → Bytes")],
+            "functions": {
+                "Responder::reset": {},
+                "Responder::is_empty": {},
+                "Responder::add_classic_request": {},
+                "Responder::add_ietf_request": {},
+                "Responder::make_response": {},
+            },
+        },
+        "Client": {
+            "file": "src/bin/roughenough-client.rs",
+            "imports": ["Message", "Merkle", "LongTerm"],
+            # the signature scheme (ed25519-dalek behind src/sign.rs) and SHA-512 are parameters
+            "params": [("S", "SigScheme"), ("H", "Bytes → Bytes")],
+            "functions": {
+                "make_request": {},
+                "receive_response": {},
+                "verify_framing": {},
+                "ResponseHandler::new": {},
+                "ResponseHandler::extract_time": {},
+                "ResponseHandler::validate_dele": {},
+                "ResponseHandler::validate_srep": {},
+                "ResponseHandler::validate_merkle": {},
+                "ResponseHandler::validate_midpoint": {},
+                "ResponseHandler::validate_sig": {},
+            },
+        },
         "Request": {
             "file": "src/request.rs",
             "imports": ["Message"],
@@ -93,8 +165,9 @@ SPEC = {
             },
         },
     },
+    "consts_extern": {"UNIX_EPOCH": "()"},
     # constants defined in other files that the modules refer to
-    "const_files": ["src/lib.rs", "src/request.rs", "src/message.rs", "src/merkle.rs"],
+    "const_files": ["src/lib.rs", "src/request.rs", "src/message.rs", "src/merkle.rs", "src/tag.rs", "src/bin/roughenough-client.rs", "src/key/longterm.rs", "src/key/online.rs", "src/responder.rs"],
 }
 
 
